@@ -157,15 +157,22 @@ def gen_model(rng, want_mc=False):
     decls[-1] = (kind, cns + [cname])
     ports = []
     pnames = rng.sample(PORT_NAMES, rng.randint(0 if not want_mc else 1, 5))
+    # the multi-client port sits at a random position among the ports (first, last, alone, ...)
+    mc_i = rng.randrange(len(pnames)) if (want_mc and pnames) else None
+    # port shape: sometimes provides-heavy (several MTS provides ports next to the multi-client one)
+    p_prov = rng.choice([0.5, 0.5, 0.85, 0.15])
     for i, pn in enumerate(pnames):
-        pk = pick(rng, decls, [interfaces[0]] if (want_mc and i == 0) else interfaces, cns, 'interface',
+        is_mc = want_mc and i == mc_i
+        pk = pick(rng, decls, [interfaces[0]] if is_mc else interfaces, cns, 'interface',
                   key=lambda t: t['fq'])
         if pk is None:
             continue
         itf, sp = pk
-        d = 'provides' if (want_mc and i == 0) else rng.choice(['provides', 'requires'])
+        d = 'provides' if is_mc else ('provides' if rng.random() < p_prov else 'requires')
         ports.append({'name': pn, 'type': sp, 'dir': d, 'formals': [],
                       'injected': d == 'requires' and rng.random() < 0.25, '_itf': itf['fq']})
+        if is_mc:
+            ports[-1]['_mc'] = True
     comp = {'k': kind, 'name': [cname], 'ports': ports}
     if kind == 'system':
         comp['instances'] = []
@@ -276,9 +283,8 @@ def gen_case(rng, want_mc=None):
     elems, info = gen_model(rng, want_mc)
     ports, prov_mts = gen_ports_cfg(rng, info)
     mc = None
-    if want_mc and info['ports'] and info['ports'][0]['dir'] == 'provides' and \
-            info['ports'][0]['_itf'] == info['interfaces'][0]['fq']:
-        p0 = info['ports'][0]
+    p0 = next((p for p in info['ports'] if p.get('_mc')), None)
+    if want_mc and p0 is not None and p0['dir'] == 'provides' and p0['_itf'] == info['interfaces'][0]['fq']:
         itf = next(i for i in info['interfaces'] if i['fq'] == p0['_itf'])
         ins = [e for e in itf['events'] if e['dir'] == 'in']
         claims = [e for e in ins if e['_reply']['kind'] == 'enum']
@@ -294,7 +300,7 @@ def gen_case(rng, want_mc=None):
            'encapsulee': info['comp_fqn'], 'ports': ports, 'multiclient': mc,
            'origin': rng.choice(['create', 'import']),
            'copyright': rng.choice(['Copyright (c) me', 'Line 1\nLine 2\n', '', '  x  \n\n y']),
-           'prefix': rng.choice([None, None, ['Pfx'], ['A', 'B']]),
+           'prefix': rng.choice([None, None, ['Pfx'], ['A', 'B'], ['A_B']]),
            'creator': rng.choice([None, None, 'ABC\nDEF\n', 'tool v1'])}
     return {'op': 'build', 'src': strip_private(elems), 'ast': M.enc_root(strip_private(elems)), 'cfg': cfg,
             'expect': 'ok', '_info': info}
@@ -335,6 +341,9 @@ def faults(rng, case):
     variant('unknown-port-name', lambda cfg: cfg['ports'].__setitem__('rsts', {'names': ['zz_unknown']}) or cfg['ports'].__setitem__('rmts', {'w': 'remaining'}))
     if prov:
         variant('provides-name-on-requires-side', lambda cfg: cfg['ports'].__setitem__('rsts', {'names': [prov[0]]}) or cfg['ports'].__setitem__('rmts', {'w': 'remaining'}))
+    variant('all-with-remaining', lambda cfg: cfg['ports'].__setitem__('rsts', {'w': 'remaining'}) or cfg['ports'].__setitem__('rmts', {'w': 'all'}))
+    variant('remaining-with-all', lambda cfg: cfg['ports'].__setitem__('rsts', {'w': 'all'}) or cfg['ports'].__setitem__('rmts', {'w': 'remaining'}))
+    variant('all-with-all', lambda cfg: cfg['ports'].__setitem__('rsts', {'w': 'all'}) or cfg['ports'].__setitem__('rmts', {'w': 'all'}))
     if req:
         variant('named-under-both', lambda cfg: cfg['ports'].__setitem__('rsts', {'names': [req[0]]}) or cfg['ports'].__setitem__('rmts', {'names': [req[0]]}))
         variant('all-with-names', lambda cfg: cfg['ports'].__setitem__('rsts', {'w': 'all'}) or cfg['ports'].__setitem__('rmts', {'names': [req[0]]}))
@@ -384,7 +393,7 @@ def faults(rng, case):
         variant('mc-bad-grant', lambda cfg: cfg['multiclient'].__setitem__('grant', ['NotAField']))
         variant('mc-empty-port', lambda cfg: cfg['multiclient'].__setitem__('port', ''))
         variant('mc-on-sts', lambda cfg: cfg['ports'].__setitem__('psts', {'w': 'all'}) or cfg['ports'].__setitem__('pmts', {'w': 'none'}))
-        p0 = info['ports'][0]
+        p0 = next(p for p in info['ports'] if p['name'] == mc['port'])
         itf = next(i for i in info['interfaces'] if i['fq'] == p0['_itf'])
         nonenum = [e for e in itf['events'] if e['dir'] == 'in' and e['_reply']['kind'] != 'enum']
         if nonenum:
